@@ -1074,6 +1074,12 @@ class Child(Entity):  # A Zone, Device or a UfhCircuit
         )
         ctl = parent if isinstance(parent, UfhController) else parent.ctl
 
+        if ctl is not self and getattr(getattr(self, "tcs", None), "ctl", None) is self:
+            raise exc.SystemSchemaInconsistent(
+                f"{self} is the controller of its own system: "
+                f"it cant be a child of another controller ({ctl})"
+            )
+
         if self.ctl and self.ctl is not ctl:
             # NOTE: assume a device is bound to only one CTL (usu. best practice)
             raise exc.SystemSchemaInconsistent(
